@@ -15,7 +15,7 @@ the decision function it is, branch by branch:
       case string:         message = {"message": m [, "error": err.Error()  if Debug]}
       case json.Marshaler: (as is)
       case error:          message = {"message": m.Error()}
-      default:             (as is) }
+      default:             (as is; an untyped nil message matches no case → JSON `null`) }
     if HEAD { c.NoContent(he.Code) } else { c.JSON(he.Code, message) }
 
 `err.Error()` is reduced to the list of atoms that occur in it (the harness extracts the
@@ -37,6 +37,7 @@ inductive Msg where
   | err (t : Atom)      -- an `error` value with text `t` (not a json.Marshaler)
   | marsh (j : Atom)    -- a json.Marshaler (possibly also an `error`) producing document `j`
   | other (j : Atom)    -- any other serialisable value (map, struct, slice) producing document `j`
+  | nil                 -- no message at all (`&HTTPError{Code: c}`, `NewHTTPError(c, nil)`): JSON `null`
 deriving DecidableEq, Repr, Inhabited
 
 inductive Err where
@@ -53,6 +54,7 @@ def msgAtoms : Msg → List Atom
   | .err t => [t]
   | .marsh j => [j]
   | .other j => [j]
+  | .nil => []          -- `%v` prints `<nil>`
 
 /-- atoms occurring in `err.Error()` -/
 def errorAtoms : Err → List Atom
@@ -72,6 +74,7 @@ inductive Doc where
   | pre                                          -- what the handler itself wrote before failing
   | message (m : Text) (dbg : Option (List Atom)) -- {"message": m [, "error": text with these atoms]}
   | doc (j : Atom)                               -- the message value serialised as it is
+  | null                                         -- the JSON document `null` (nil message)
 deriving DecidableEq, Repr, Inhabited
 
 /-- what the underlying writer has seen -/
@@ -106,6 +109,7 @@ def shape (debug : Bool) (err : Err) (code : Nat) : Msg → Doc
   | .marsh j => .doc j
   | .err t => .message (.atom t) none
   | .other j => .doc j
+  | .nil => .null       -- no case of the type switch matches an untyped nil: sent as it is
 
 /-- `DefaultHTTPErrorHandler(err, c)` on a response in state `o` -/
 def handle (debug head : Bool) (o : Out) (err : Err) : Out :=
@@ -201,6 +205,7 @@ def pMsg : P Msg := do
   | 2 => pure (.err t)
   | 3 => pure (.marsh t)
   | 4 => pure (.other t)
+  | 5 => pure .nil
   | _ => failure
 
 /-- recursive descent with fuel (depth of the tree) -/
@@ -260,6 +265,7 @@ def encDoc : Doc → List String
   | .pre => ["0"]
   | .message m dbg => "1" :: encText m ++ encOpt (encList fun a => [toString a]) dbg
   | .doc j => ["2", toString j]
+  | .null => ["3"]
 
 /-- line: `debug head recover disableEH double pre raise` →
     `X` (crashed) or `committed ncalls call* ndocs doc*` -/
